@@ -39,7 +39,7 @@ func init() {
 		Title:   "required-field lists never share a backing array",
 		Text:    "Every store to RequiredFields.fields is an append to the receiver's own (fresh) list, a make or a literal — never another list's slice: Add appends in place, so an aliased list lets two records overwrite each other's required fields.",
 		Props:   []string{"C06", "C01"},
-		Modules: []string{"v2"}, // the root module's RequiredFields is an immutable []string
+		Modules: []string{"v2"},          // the root module's RequiredFields is an immutable []string
 		Floor:   map[string]int{"v2": 1}, // Add's own append; NewRequiredFields may reuse Add (benign C13-f3)
 		Run:     runR066,
 	})
